@@ -10,6 +10,7 @@ import StVerif.Lemmas.KernelLoopsUtf32
 import StVerif.Lemmas.KernelLoopsUtf8
 import StVerif.Lemmas.KernelLoopsMisc
 import StVerif.Lemmas.KernelLoopsValidate
+import StVerif.Lemmas.KernelLoopsCleanup
 
 namespace StVerif.Props.C02
 open StVerif StVerif.Utf StVerif.Generated StVerif.Lemmas.Utf
@@ -281,5 +282,14 @@ theorem conversion_loops_are_model (mem : List Nat) (m : Mode) (subst : Bool) (f
    utf8_convert_from_utf32_eq mem m subst fuel hf, utf16_convert_from_utf32_eq mem m subst fuel hf,
    fun hu => ⟨utf8_convert_from_utf16_eq mem m subst hu fuel hf, utf32_convert_from_utf16_eq mem m subst hu fuel hf⟩,
    validate_utf8_eq mem fuel hf⟩
+
+open StVerif.KernelBridge in
+/-- `cleanup_utf8` (the repairer behind `substitute_invalid` for `ST::string`) as translated from the C++ on every run:
+    both passes complete without a load outside the source, the sizing pass (null output) returns exactly the number of
+    units the filling pass stores, and what is stored is the model's `cleanupUtf8` - for every source below 2^62 bytes -/
+theorem translated_repairer_is_model (mem : List Nat) (fuel : Nat) (hf : mem.length < fuel) (hl : 3 * mem.length < 2 ^ 64) :
+    Kernels.cleanup_utf8 mem fuel false 0 mem.length = .ok ((cleanupUtf8 mem).length, cleanupUtf8 mem) ∧
+    Kernels.cleanup_utf8 mem fuel true 0 mem.length = .ok ((cleanupUtf8 mem).length, []) :=
+  cleanup_utf8_eq mem fuel hf hl
 
 end StVerif.Props.C02
